@@ -4,16 +4,20 @@ Same models and runs as C09 (harness/c09_common.py); theorems in Props/C10.v
 cgls r2norm truthful / r1norm refuted, functional monotone).  The check
 compares returned tuples, cost histories, callback logs and Callbacks traces
 with the model inside Coq, evaluates the truthfulness clauses exactly on the
-implementation's own iterates, and compares lsqr's cost / norms with SciPy."""
+implementation's own iterates, and compares lsqr's cost / norms with SciPy.
+OMP / MP diagnostics: harness/c10_omp.py."""
 from . import c09_common as cc
+from . import c10_omp
 
 PID = "C10"
 PROPOSED_KNOWN = cc.PROPOSED_KNOWN
 
 
 def replay(rp):
+    if rp.get("solver") == "omp":
+        return c10_omp.replay(rp)
     return cc.replay(rp, cc.KINDS[PID])
 
 
 def main(tier):
-    return cc.report(PID, tier)
+    return cc.report(PID, tier, extra=c10_omp.extra)
